@@ -70,7 +70,8 @@ def ser_mapper(node, data):
 
 
 def ser_mapper_fresh(node, data):
-    out = dict(data)
+    # a new dict holding only what this mapper knows about
+    out = {k: data[k] for k in ("data", "data_id") if k in data}
     out["key"] = node.data.key
     return out
 
